@@ -33,6 +33,19 @@ fn dispatch(op: &str, a: &[&str]) -> Option<String> {
     match op {
         "gfind" => gfind(a),
         "gcount" => gcount(a),
+        "iseq" | "isprefix" | "issuffix" => iseq(op, a),
+        "rk" => rk(a, false),
+        "rkx" => rk(a, true),
+        "swar" => swar(a),
+        "swarcount" => swarcount(a),
+        "shiftor" => shiftor(a),
+        "pair" => pair(a),
+        "pairidx" => pairidx(a),
+        "fbpre" => fbpre(a),
+        "ppfind" => ppfind(a, false),
+        "pppre" => ppfind(a, true),
+        "twnew" => twnew(a),
+        "twfind" => twfind(a),
         _ => None,
     }
 }
@@ -125,6 +138,436 @@ fn gcount(a: &[&str]) -> Option<String> {
         bad,
         allocs
     ))
+}
+
+// ---------------------------------------------------------------------------
+// naive oracles
+
+pub fn naive_find(hay: &[u8], needle: &[u8]) -> Option<usize> {
+    if needle.len() > hay.len() {
+        return None;
+    }
+    (0..=hay.len() - needle.len()).find(|&i| &hay[i..i + needle.len()] == needle)
+}
+
+pub fn naive_rfind(hay: &[u8], needle: &[u8]) -> Option<usize> {
+    if needle.len() > hay.len() {
+        return None;
+    }
+    (0..=hay.len() - needle.len()).rev().find(|&i| &hay[i..i + needle.len()] == needle)
+}
+
+/// Common tail: `ok <val> steps=.. loads=.. oracle=.. badloads=.. allocs=..`
+fn finish(val: String, oracle: String, allocs: u64) -> String {
+    let rep = verif::take();
+    let (loads, bad) = fmt_loads(&rep.loads, 1);
+    let strat = if rep.strategies.is_empty() { "-".to_string() } else { rep.strategies.join(",") };
+    format!(
+        "ok {} steps={} loads={} oracle={} badloads={} allocs={} strat={}",
+        val,
+        sum_ticks(&rep.ticks),
+        loads,
+        oracle,
+        bad,
+        allocs,
+        strat
+    )
+}
+
+fn usz(s: &str) -> Option<usize> {
+    s.parse().ok()
+}
+
+/// `iseq|isprefix|issuffix <basex> <x> <basey> <y>`
+fn iseq(op: &str, a: &[&str]) -> Option<String> {
+    if a.len() != 4 {
+        return None;
+    }
+    let x = parse_bytes(a[1])?;
+    let y = parse_bytes(a[3])?;
+    let px = Placed::new(&x, usz(a[0])?);
+    let py = Placed::new(&y, usz(a[2])?);
+    verif::reset();
+    verif::register_region(px.ptr(), x.len());
+    verif::register_region(py.ptr(), y.len());
+    let (r, allocs) = alloc_probe::measure(|| match op {
+        "iseq" => memchr::arch::all::is_equal(px.slice(), py.slice()),
+        "isprefix" => memchr::arch::all::is_prefix(px.slice(), py.slice()),
+        _ => memchr::arch::all::is_suffix(px.slice(), py.slice()),
+    });
+    let oracle = match op {
+        "iseq" => x == y,
+        "isprefix" => x.starts_with(&y),
+        _ => x.ends_with(&y),
+    };
+    Some(finish(r.to_string(), oracle.to_string(), allocs))
+}
+
+/// `rk fwd|rev <baseh> <hay> <basen> <needle>` /
+/// `rkx fwd|rev <construct-needle> <baseh> <hay> <basen> <search-needle>`
+fn rk(a: &[&str], foreign: bool) -> Option<String> {
+    let (dir, cons, rest) = if foreign {
+        if a.len() != 6 {
+            return None;
+        }
+        (a[0], Some(parse_bytes(a[1])?), &a[2..])
+    } else {
+        if a.len() != 5 {
+            return None;
+        }
+        (a[0], None, &a[1..])
+    };
+    let rev = match dir {
+        "fwd" => false,
+        "rev" => true,
+        _ => return None,
+    };
+    let hay = parse_bytes(rest[1])?;
+    let needle = parse_bytes(rest[3])?;
+    let ph = Placed::new(&hay, usz(rest[0])?);
+    let pn = Placed::new(&needle, usz(rest[2])?);
+    let cons = cons.unwrap_or_else(|| needle.clone());
+    verif::reset();
+    verif::register_region(ph.ptr(), hay.len());
+    verif::register_region(pn.ptr(), needle.len());
+    use memchr::arch::all::rabinkarp as rkm;
+    let (r, allocs) = alloc_probe::measure(|| {
+        if rev {
+            rkm::FinderRev::new(&cons).rfind(ph.slice(), pn.slice())
+        } else {
+            rkm::Finder::new(&cons).find(ph.slice(), pn.slice())
+        }
+    });
+    let oracle = if rev { naive_rfind(&hay, &needle) } else { naive_find(&hay, &needle) };
+    Some(finish(fmt_opt(r), fmt_opt(oracle), allocs))
+}
+
+/// `swar <needles> fwd|rev <base> <soff> <eoff> <hay>`
+fn swar(a: &[&str]) -> Option<String> {
+    if a.len() != 6 {
+        return None;
+    }
+    let needles = parse_bytes(a[0])?;
+    let rev = match a[1] {
+        "fwd" => false,
+        "rev" => true,
+        _ => return None,
+    };
+    let base = usz(a[2])?;
+    let soff = usz(a[3])?;
+    let eoff = usz(a[4])?;
+    let hay = parse_bytes(a[5])?;
+    if needles.is_empty() || needles.len() > 3 || soff > hay.len() || eoff > hay.len() {
+        return None;
+    }
+    let p = Placed::new(&hay, base);
+    verif::reset();
+    verif::register_region(p.ptr(), hay.len());
+    use memchr::arch::all::memchr as sw;
+    let (s, e) = unsafe { (p.ptr().add(soff), p.ptr().add(eoff)) };
+    let (r, allocs) = alloc_probe::measure(|| unsafe {
+        match (needles.len(), rev) {
+            (1, false) => sw::One::new(needles[0]).find_raw(s, e),
+            (1, true) => sw::One::new(needles[0]).rfind_raw(s, e),
+            (2, false) => sw::Two::new(needles[0], needles[1]).find_raw(s, e),
+            (2, true) => sw::Two::new(needles[0], needles[1]).rfind_raw(s, e),
+            (3, false) => sw::Three::new(needles[0], needles[1], needles[2]).find_raw(s, e),
+            _ => sw::Three::new(needles[0], needles[1], needles[2]).rfind_raw(s, e),
+        }
+    });
+    let val = r.map(|q| q as usize - p.ptr() as usize);
+    let window = if soff <= eoff { &hay[soff..eoff] } else { &hay[0..0] };
+    let is = |b: &u8| needles.contains(b);
+    let oracle = if rev {
+        window.iter().rposition(is).map(|i| i + soff)
+    } else {
+        window.iter().position(is).map(|i| i + soff)
+    };
+    Some(finish(fmt_opt(val), fmt_opt(oracle), allocs))
+}
+
+/// `swarcount <needle> <base> <soff> <eoff> <hay>`
+fn swarcount(a: &[&str]) -> Option<String> {
+    if a.len() != 5 {
+        return None;
+    }
+    let needles = parse_bytes(a[0])?;
+    let base = usz(a[1])?;
+    let soff = usz(a[2])?;
+    let eoff = usz(a[3])?;
+    let hay = parse_bytes(a[4])?;
+    if needles.len() != 1 || soff > hay.len() || eoff > hay.len() {
+        return None;
+    }
+    let p = Placed::new(&hay, base);
+    verif::reset();
+    verif::register_region(p.ptr(), hay.len());
+    let (s, e) = unsafe { (p.ptr().add(soff), p.ptr().add(eoff)) };
+    let (r, allocs) = alloc_probe::measure(|| unsafe {
+        memchr::arch::all::memchr::One::new(needles[0]).count_raw(s, e)
+    });
+    let window = if soff <= eoff { &hay[soff..eoff] } else { &hay[0..0] };
+    let oracle = window.iter().filter(|&&b| b == needles[0]).count();
+    Some(finish(r.to_string(), oracle.to_string(), allocs))
+}
+
+/// `shiftor <needle> <hay>`
+fn shiftor(a: &[&str]) -> Option<String> {
+    if a.len() != 2 {
+        return None;
+    }
+    let needle = parse_bytes(a[0])?;
+    let hay = parse_bytes(a[1])?;
+    verif::reset();
+    let f = memchr::arch::all::shiftor::Finder::new(&needle);
+    let (val, oracle) = match f {
+        None => ("nofinder".to_string(), if needle.len() > 15 { "nofinder".to_string() } else { "finder".to_string() }),
+        Some(f) => (fmt_opt(f.find(&hay)), if needle.len() > 15 { "nofinder".to_string() } else { fmt_opt(naive_find(&hay, &needle)) }),
+    };
+    Some(finish(val, oracle, 0))
+}
+
+struct TableRank([u8; 256]);
+impl memchr::arch::all::packedpair::HeuristicFrequencyRank for TableRank {
+    fn rank(&self, byte: u8) -> u8 {
+        self.0[byte as usize]
+    }
+}
+
+fn fmt_pair(p: Option<memchr::arch::all::packedpair::Pair>) -> String {
+    match p {
+        None => "none".to_string(),
+        Some(p) => format!("{},{}", p.index1(), p.index2()),
+    }
+}
+
+/// `pair default|<512 hex digits> <needle>`; oracle is the property itself:
+/// `ok` iff (None iff len < 2) and indices distinct, in range, <= 254.
+fn pair(a: &[&str]) -> Option<String> {
+    if a.len() != 2 {
+        return None;
+    }
+    let needle = parse_bytes(a[1])?;
+    use memchr::arch::all::packedpair::Pair;
+    verif::reset();
+    let (p, allocs) = alloc_probe::measure(|| {
+        if a[0] == "default" {
+            Some(Pair::new(&needle))
+        } else {
+            let t = parse_bytes(a[0])?;
+            if t.len() != 256 {
+                return None;
+            }
+            let mut tab = [0u8; 256];
+            tab.copy_from_slice(&t);
+            Some(Pair::with_ranker(&needle, TableRank(tab)))
+        }
+    });
+    let p = p?;
+    let valid = match p {
+        None => needle.len() < 2,
+        Some(ref p) => {
+            needle.len() >= 2
+                && p.index1() != p.index2()
+                && (p.index1() as usize) < needle.len()
+                && (p.index2() as usize) < needle.len()
+                && p.index1() <= 254
+                && p.index2() <= 254
+        }
+    };
+    let val = fmt_pair(p);
+    // the oracle field repeats the value when it is valid so that the generic
+    // value-vs-oracle comparison applies
+    let oracle = if valid { val.clone() } else { "INVALID".to_string() };
+    Some(finish(val, oracle, allocs))
+}
+
+/// `pairidx <needle> <i1> <i2>`
+fn pairidx(a: &[&str]) -> Option<String> {
+    if a.len() != 3 {
+        return None;
+    }
+    let needle = parse_bytes(a[0])?;
+    let i1: u8 = a[1].parse().ok()?;
+    let i2: u8 = a[2].parse().ok()?;
+    verif::reset();
+    let p = memchr::arch::all::packedpair::Pair::with_indices(&needle, i1, i2);
+    let oracle = if i1 != i2 && (i1 as usize) < needle.len() && (i2 as usize) < needle.len() {
+        format!("{},{}", i1, i2)
+    } else {
+        "none".to_string()
+    };
+    Some(finish(fmt_pair(p), oracle, 0))
+}
+
+/// Oracle for a prefilter answer: `SOUND` when the candidate is at or before the first
+/// occurrence and carries the pair bytes (or `none` with no occurrence).
+fn prefilter_oracle(
+    hay: &[u8],
+    needle: &[u8],
+    i1: usize,
+    i2: usize,
+    r: Option<usize>,
+    check_bytes: bool,
+) -> String {
+    let first = naive_find(hay, needle);
+    match (r, first) {
+        (None, None) => "none".to_string(),
+        (None, Some(q)) => format!("MISSED-{}", q),
+        (Some(c), f) => {
+            if let Some(q) = f {
+                if c > q {
+                    return format!("SKIPPED-{}", q);
+                }
+            }
+            if check_bytes
+                && !(c + i1 < hay.len()
+                    && c + i2 < hay.len()
+                    && hay[c + i1] == needle[i1]
+                    && hay[c + i2] == needle[i2])
+            {
+                return "NOT-A-PAIR".to_string();
+            }
+            c.to_string()
+        }
+    }
+}
+
+/// `fbpre <needle> <i1> <i2> <base> <hay>`
+fn fbpre(a: &[&str]) -> Option<String> {
+    if a.len() != 5 {
+        return None;
+    }
+    let needle = parse_bytes(a[0])?;
+    let i1: u8 = a[1].parse().ok()?;
+    let i2: u8 = a[2].parse().ok()?;
+    let hay = parse_bytes(a[4])?;
+    let ph = Placed::new(&hay, usz(a[3])?);
+    use memchr::arch::all::packedpair as pp;
+    verif::reset();
+    verif::register_region(ph.ptr(), hay.len());
+    let pair = match pp::Pair::with_indices(&needle, i1, i2) {
+        None => return Some(finish("badpair".to_string(), "badpair".to_string(), 0)),
+        Some(p) => p,
+    };
+    let (r, allocs) = alloc_probe::measure(|| {
+        pp::Finder::with_pair(&needle, pair).and_then(|f| f.find_prefilter(ph.slice()))
+    });
+    let oracle = prefilter_oracle(&hay, &needle, i1 as usize, i2 as usize, r, true);
+    Some(finish(fmt_opt(r), oracle, allocs))
+}
+
+/// `ppfind <lanes> <needle> <i1> <i2> <nbase> <search-needle> <hbase> <hay>` /
+/// `pppre <lanes> <needle> <i1> <i2> <hbase> <hay>`
+fn ppfind(a: &[&str], prefilter: bool) -> Option<String> {
+    if a.len() != if prefilter { 6 } else { 8 } {
+        return None;
+    }
+    let lanes = usz(a[0])?;
+    let needle = parse_bytes(a[1])?;
+    let i1: u8 = a[2].parse().ok()?;
+    let i2: u8 = a[3].parse().ok()?;
+    let (nbase, sneedle, hbase, hay) = if prefilter {
+        (0, needle.clone(), usz(a[4])?, parse_bytes(a[5])?)
+    } else {
+        (usz(a[4])?, parse_bytes(a[5])?, usz(a[6])?, parse_bytes(a[7])?)
+    };
+    let ph = Placed::new(&hay, hbase);
+    let pn = Placed::new(&sneedle, nbase);
+    verif::reset();
+    verif::register_region(ph.ptr(), hay.len());
+    verif::register_region(pn.ptr(), sneedle.len());
+    let minlen = match verif::small_packedpair_min_len(lanes, &needle, i1, i2) {
+        None => return Some(finish("badpair".to_string(), "badpair".to_string(), 0) + " minlen=0"),
+        Some(m) => m,
+    };
+    let _ = verif::take();
+    verif::reset();
+    verif::register_region(ph.ptr(), hay.len());
+    verif::register_region(pn.ptr(), sneedle.len());
+    let r = catch_unwind(AssertUnwindSafe(|| unsafe {
+        verif::small_packedpair(lanes, &needle, i1, i2, prefilter, ph.slice(), pn.slice())
+    }));
+    match r {
+        Err(e) => {
+            let msg = panic_message(&*e);
+            let _ = verif::take();
+            Some(format!("{} [{}] minlen={}", classify_panic(&msg), msg.replace('\n', " "), minlen))
+        }
+        Ok(None) => None,
+        Ok(Some(sp)) => {
+            let oracle = if prefilter {
+                prefilter_oracle(&hay, &needle, i1 as usize, i2 as usize, sp.result, true)
+            } else {
+                fmt_opt(naive_find(&hay, &sneedle))
+            };
+            Some(finish(fmt_opt(sp.result), oracle, 0) + &format!(" minlen={}", minlen))
+        }
+    }
+}
+
+fn tw_debug(s: &str) -> String {
+    // Finder(TwoWay { byteset: ApproximateByteSet(N), critical_pos: C, shift: Large { shift: S } })
+    let num_after = |key: &str| -> String {
+        match s.find(key) {
+            None => "?".to_string(),
+            Some(i) => s[i + key.len()..].chars().take_while(|c| c.is_ascii_digit()).collect(),
+        }
+    };
+    let byteset = num_after("ApproximateByteSet(");
+    let crit = num_after("critical_pos: ");
+    let shift = if s.contains("Small {") {
+        format!("small:{}", num_after("period: "))
+    } else {
+        format!("large:{}", num_after("Large { shift: "))
+    };
+    format!("crit={} shift={} byteset={}", crit, shift, byteset)
+}
+
+/// `twnew fwd|rev <needle>`
+fn twnew(a: &[&str]) -> Option<String> {
+    if a.len() != 2 {
+        return None;
+    }
+    let needle = parse_bytes(a[1])?;
+    use memchr::arch::all::twoway as tw;
+    verif::reset();
+    let pn = Placed::new(&needle, 8192);
+    verif::register_region(pn.ptr(), needle.len());
+    let dbg = match a[0] {
+        "fwd" => format!("{:?}", tw::Finder::new(pn.slice())),
+        "rev" => format!("{:?}", tw::FinderRev::new(pn.slice())),
+        _ => return None,
+    };
+    let rep = verif::take();
+    Some(format!("ok {} steps={}", tw_debug(&dbg), sum_ticks(&rep.ticks)))
+}
+
+/// `twfind fwd|rev <needle> <hay>`
+fn twfind(a: &[&str]) -> Option<String> {
+    if a.len() != 3 {
+        return None;
+    }
+    let needle = parse_bytes(a[1])?;
+    let hay = parse_bytes(a[2])?;
+    use memchr::arch::all::twoway as tw;
+    let ph = Placed::new(&hay, 4096);
+    let pn = Placed::new(&needle, 8192);
+    verif::reset();
+    verif::register_region(ph.ptr(), hay.len());
+    verif::register_region(pn.ptr(), needle.len());
+    let (r, allocs, oracle) = match a[0] {
+        "fwd" => {
+            let (r, al) = alloc_probe::measure(|| tw::Finder::new(pn.slice()).find(ph.slice(), pn.slice()));
+            (r, al, naive_find(&hay, &needle))
+        }
+        "rev" => {
+            let (r, al) = alloc_probe::measure(|| tw::FinderRev::new(pn.slice()).rfind(ph.slice(), pn.slice()));
+            (r, al, naive_rfind(&hay, &needle))
+        }
+        _ => return None,
+    };
+    Some(finish(fmt_opt(r), fmt_opt(oracle), allocs))
 }
 
 pub fn conc_child(_args: &[String]) {
